@@ -7,6 +7,7 @@ and, for a sample, through `python -m jsonschema` subprocesses; the exit
 status and both streams are compared with what the library reports for the
 same files.
 """
+import collections
 import io
 import itertools
 import json
@@ -70,7 +71,9 @@ def floors(tier):
     return {"fixtures": 2500, "fixtures_exhaustive_vectors": 600, "fixtures_last_valid_earlier_bad": 300,
             "subprocess_runs": 30 if tier == "quick" else 100, "stdin_fixtures": 40, "base_uri_fixtures": 40,
             "validator_option_fixtures": 100, "validator_vs_dollar_schema_fixtures": 150, "mode:plain-custom": 500, "mode:plain-default": 300, "mode:pretty": 500, "mode:plain-empty": 300,
-            "exit0": 100, "exit_nonzero": 1000, "fixtures_long_lists": 10, "indexed_error_formats": 100, "blank_stdin_fixtures": 15, "self_named_schema_with_local_references": 100, "validation_chunks_checked": 2500, "load_diagnostics_checked": 1500}
+            "exit0": 100, "exit_nonzero": 1000, "fixtures_long_lists": 10, "indexed_error_formats": 100, "blank_stdin_fixtures": 15, "self_named_schema_with_local_references": 100, "validation_chunks_checked": 2500, "load_diagnostics_checked": 1500,
+            "fixtures_with_a_path_listed_again": 250, "repeated_listing_of:invalid": 20, "repeated_listing_of:valid": 20,
+            "repeated_listing_of:missing": 20, "repeated_listing_of:notjson": 20}
 
 
 class Fixture:
@@ -199,6 +202,13 @@ def check(ctx, case, argv, mode, sp, schema_state, sval, insts, cls_opt, base_ur
             else:
                 success.append(path)
     ctx.count("exit0" if expect_ok else "exit_nonzero")
+    # a path listed several times is processed once per listing: what the streams must hold for it is the sum over
+    # its listings (chunks and diagnostics are attributed to files by path)
+    merged = {}
+    for path, errs in expected_chunks:
+        merged.setdefault(path, []).extend(errs)
+    expected_chunks = list(merged.items())
+    load_count = collections.Counter(load_bad)
     # ---- exit status
     # (what run() returns is handed to sys.exit(): the parent process sees its low 8 bits)
     seen_by_parent = 0 if code is None else (code & 0xFF) if isinstance(code, int) else 1
@@ -247,12 +257,12 @@ def check(ctx, case, argv, mode, sp, schema_state, sval, insts, cls_opt, base_ur
                 len(lines), len(load_bad), err[:300]))
         remainder = err
     elif mode == "plain-default":
-        for path, errs in expected_chunks:
-            for e in errs:
-                chunk = "{error.instance}: {error.message}\n".format(error=e)
-                ctx.count("validation_chunks_checked")
-                if err.count(chunk) < 1:
-                    return bad("validation-chunks", "default-format chunk %r missing from stderr" % chunk[:200])
+        due = collections.Counter("{error.instance}: {error.message}\n".format(error=e) for path, errs in expected_chunks for e in errs)
+        for chunk, times in due.items():
+            ctx.count("validation_chunks_checked", times)
+            if err.count(chunk) < times:
+                return bad("validation-chunks", "default-format chunk %r is in stderr %d time(s), the library reports it %d time(s)" % (
+                    chunk[:200], err.count(chunk), times))
         nlines = sum(len(errs) for _, errs in expected_chunks)
         lines = [l for l in err.split("\n") if l.strip()]
         if len(lines) < nlines + len(load_bad):
@@ -275,11 +285,11 @@ def check(ctx, case, argv, mode, sp, schema_state, sval, insts, cls_opt, base_ur
         remainder = "".join(b + PRETTY_RULE + "\n" for b in bl if not any("===(%s)===" % p in b.split("\n", 1)[0] for p, _ in expected_chunks))
     # ---- stderr: load diagnostics (one block / line mentioning each bad path; wording free)
     rb = blocks(remainder, "pretty" if mode == "pretty" else "plain")
-    for path in load_bad:
-        ctx.count("load_diagnostics_checked")
+    for path, times in load_count.items():
+        ctx.count("load_diagnostics_checked", times)
         n = sum(1 for b in rb if path in b)
-        if n != 1:
-            return bad("load-diagnostic", "%d diagnostic(s) mention %s, expected exactly 1" % (n, os.path.basename(path)))
+        if n != times:
+            return bad("load-diagnostic", "%d diagnostic(s) mention %s, expected exactly %d (one per listing)" % (n, os.path.basename(path), times))
     if stdin_mode and process_instances and insts and insts[0][1] == "notjson":
         ctx.count("load_diagnostics_checked")
         if not any("<stdin>" in b for b in rb):
@@ -303,7 +313,7 @@ def check(ctx, case, argv, mode, sp, schema_state, sval, insts, cls_opt, base_ur
 
 
 def one(ctx, root, rng, n, schema_state, inst_states, mode, validator_opt=None, draft_kw=None, base_uri=False,
-        stdin_mode=False, subprocess_too=False, schema_obj=None):
+        stdin_mode=False, subprocess_too=False, schema_obj=None, repeats=0):
     ACTIVE["format"] = CUSTOM_FORMAT
     if mode == "plain-custom" and schema_state == "valid" and schema_obj is None and not base_uri and not validator_opt and not draft_kw \
             and rng.random() < 0.5:
@@ -324,6 +334,13 @@ def one(ctx, root, rng, n, schema_state, inst_states, mode, validator_opt=None, 
                 ctx.count("blank_stdin_fixtures")
             insts = [("<stdin>", st, val if st in ("valid", "invalid") else None)]
         else:
+            if repeats and insts:
+                # the same path listed again (a listing is processed, not a file): copies go anywhere after nothing in particular
+                pr = random.Random(n * 7919 + repeats)
+                for _ in range(repeats):
+                    insts.insert(pr.randrange(len(insts) + 1), insts[pr.randrange(len(insts))])
+                ctx.count("fixtures_with_a_path_listed_again")
+                ctx.count("repeated_listing_of:" + "+".join(sorted({st for p, st, v in insts if sum(1 for q in insts if q[0] == p) > 1})))
             for p, st, v in insts:
                 argv += ["-i", p]
         if mode == "plain-custom":
@@ -425,6 +442,15 @@ def run(ctx):
                 ctx.count("fixtures_long_lists")
                 kind = "missing" if (idx % 2) else "notjson"
                 one(ctx, root, rr, n, "valid", lead + [kind] * k_long, mode, subprocess_too=(k_long == 256 and not lead))
+        # the same path listed more than once: every listing is processed (all single states and pairs, every mode, in- and out-of-process)
+        for vec in [(a,) for a in STATES] + list(itertools.product(STATES, repeat=2)) + [("valid", "invalid", "missing", "notjson")]:
+            for mode in ALL_MODES:
+                for reps in (1, 2, 3):
+                    idx += 1
+                    if not ctx.mine(idx):
+                        continue
+                    n += 1
+                    one(ctx, root, rr, n, "valid", list(vec), mode, repeats=reps, subprocess_too=(idx % 29 == 0))
         rng = ctx.rng
         for i in range(ctx.scale(450, 4000)):
             n += 1
@@ -477,7 +503,8 @@ def run(ctx):
                 one(ctx, root, rng, n, rng.choice(["valid", "valid", "invalid"]), [rng.choice(["valid", "invalid", "notjson"])], mode,
                     stdin_mode=True, subprocess_too=(i % 23 == 0))
             else:
-                one(ctx, root, rng, n, rng.choice(STATES + ["valid", "valid"]), vec, mode, subprocess_too=(i % 31 == 0))
+                one(ctx, root, rng, n, rng.choice(STATES + ["valid", "valid"]), vec, mode, subprocess_too=(i % 31 == 0),
+                    repeats=(i % 3 == 0) * (1 + i % 2))
         ctx.sample({"argv": ["-i", "<dir>/inst_invalid_2.json", "-i", "<dir>/inst_valid_3.json", "--error-format", "<custom>", "<dir>/schema_valid_1.json"],
                     "states": ["invalid", "valid"], "mode": "plain-custom"})
     finally:
@@ -490,8 +517,12 @@ def replay(ctx, rec):
     root = tempfile.mkdtemp(prefix="vf_c19_")
     try:
         rr = random.Random(1)
-        states = [s for _, s, _ in c["instances"]]
+        first = {}
+        for name, s, _ in c["instances"]:
+            first.setdefault(name, s)
+        states = list(first.values())
         for k in range(20):
-            one(ctx, root, rr, k, c["schema_state"], states, c["mode"], stdin_mode=c.get("stdin") is not None)
+            one(ctx, root, rr, k, c["schema_state"], states, c["mode"], stdin_mode=c.get("stdin") is not None,
+                repeats=len(c["instances"]) - len(states))
     finally:
         shutil.rmtree(root, ignore_errors=True)
